@@ -125,7 +125,7 @@ def discharge(obls, timeout_ms=60000, second_solver=False, quick_ms=4000):
     left = []
     for o in todo:
         if getattr(o, "syntactic", None) and o.syntactic():
-            o.verdict, o.backend, o.hyps_used = "discharged", "syntactic", "all"
+            o.verdict, o.backend, o.hyps_used = "discharged", "prepass", "all"   # the goal is among the hypotheses (alpha-equivalence, simplifier, modus ponens)
         else:
             left.append(o)
     todo = left
